@@ -221,9 +221,9 @@ def run(ctx):
     ctx.extra["crash_points_per_scenario"] = npoints
     ctx.extra["crash_cases"] = len(cases)
     ctx.extra["truncation_cases"] = len(res)
-    ctx.rule = ("crash before every (thorough) / every 5th-36th (quick, offset by seed) LINE event of the recorded execution "
+    ctx.rule = ("crash before every (thorough; every 3rd of the ~700-point workflow paths) / every 5th-36th (quick, offset by seed) LINE event of the recorded execution "
                 "path of each scenario (python task, shell task, failing task, workflow under debug, workflow under cf "
-                "crashing the parent or a pool child) + truncation of a complete result file to every (thorough, python "
+                "crashing the parent or a pool child) + truncation of a complete result file to every length < 96 and every 5th beyond (thorough, python "
                 "task) / sampled lengths; non-trivial = the victim really died at the point; distinct = distinct "
                 "(scenario, point) / (scenario, length, planted lock)")
     ctx.assumptions = ["crash points are statement boundaries of the traced functions plus file truncation lengths, not "
